@@ -26,7 +26,18 @@ type FS = filesystem.Filespace
 const (
 	longWait  = 20 * time.Second       // for what the model says must happen
 	shortWait = 120 * time.Millisecond // to confirm "blocked" (a blocked goroutine never arrives)
+	// once this process has reported a hang (the property is already violated on that scenario) later waits
+	// for "what must happen" ask the runtime after hangWatchdog instead of longWait; the verdict still comes
+	// from the runtime (the goroutine is parked on a sync lock), never from the elapsed time alone
+	hangWatchdog = 1500 * time.Millisecond
+	hangConfirm  = 250 * time.Millisecond // second reading of the goroutine's state
+	hardLimit    = 120 * time.Second      // a goroutine that neither arrives nor parks on a lock (spinning)
 )
+
+// hangsSeen counts the waits of this process that ended in `hang`.  The first one is waited for generously
+// (longWait, then the runtime is asked); afterwards the short watchdog is used so that a tree on which many
+// scenarios hang is reported in bounded time.  On a tree where nothing hangs nothing changes.
+var hangsSeen int32
 
 type event struct{ kind, arg string }
 
@@ -38,6 +49,8 @@ type hnd struct {
 
 type thr struct {
 	id      int
+	gid     int64 // runtime id of the thread's goroutine
+	hung    bool  // a wait for this thread ended in `hang`
 	ops     [][]string
 	ev      chan event
 	resume  chan struct{}
@@ -146,6 +159,10 @@ func exec(fs FS, t *thr, op []string) string {
 		return okErr(fs.RemoveAll(fsPath(op[1])))
 	case "copy":
 		return okErr(fs.Copy(fsPath(op[1]), fsPath(op[2])))
+	case "copyfile":
+		return okErr(fs.CopyFile(fsPath(op[1]), fsPath(op[2])))
+	case "copydir":
+		return okErr(fs.CopyDirectory(fsPath(op[1]), fsPath(op[2])))
 	case "openw":
 		h, _ := strconv.Atoi(op[1])
 		if _, used := t.handles[h]; used {
@@ -205,7 +222,8 @@ func exec(fs FS, t *thr, op []string) string {
 func (sc *scenario) start(t *thr) {
 	ready := make(chan struct{})
 	go func() {
-		sc.goids.Store(goid(), t)
+		t.gid = goid()
+		sc.goids.Store(t.gid, t)
 		close(ready)
 		for _, op := range t.ops {
 			<-t.resume
@@ -219,33 +237,88 @@ func (sc *scenario) start(t *thr) {
 	<-ready
 }
 
-// await waits for the next event of a thread; blockedExpected selects the short wait.
-func (t *thr) await(blockedExpected bool) string {
-	wait := longWait
-	if blockedExpected || t.sc.dead {
-		wait = shortWait
+// take records an event of a thread and renders it.
+func (t *thr) take(e event) string {
+	switch e.kind {
+	case "park":
+		t.state = e.arg
+		return "park " + e.arg
+	case "done":
+		t.state = "op"
+		t.nDone++
+		return "done " + e.arg
+	default:
+		t.state = "finished"
+		return "finished"
 	}
-	select {
-	case e := <-t.ev:
-		switch e.kind {
-		case "park":
-			t.state = e.arg
-			return "park " + e.arg
-		case "done":
-			t.state = "op"
-			t.nDone++
-			return "done " + e.arg
-		default:
-			t.state = "finished"
-			return "finished"
-		}
-	case <-time.After(wait):
-		if blockedExpected {
+}
+
+// parkedOnLock reads from the runtime whether the thread's goroutine waits for a sync.Mutex / sync.RWMutex.
+func (t *thr) parkedOnLock() bool {
+	st, ok := hx.GoroutineStatus(t.gid)
+	return ok && hx.ParkedOnLock(st)
+}
+
+// await waits for the next event of a thread.
+//
+// blockedExpected (the model says the thread cannot move): a short wait; a blocked goroutine never arrives.
+//
+// Otherwise the model says the thread proceeds.  `hang` is a statement about the goroutine, read from the
+// runtime: after a generous wait (longWait; hangWatchdog once this process has already reported a hang;
+// shortWait inside a scenario that is already dead) the goroutine's state is taken from a stop-the-world
+// stack snapshot, and only "parked on a sync lock" - twice, hangConfirm apart, with no event in between -
+// is a hang.  In a gated replay every other goroutine of the scenario sits at a gate, is finished or is
+// itself blocked, so nobody will release that lock.  A goroutine that is running, runnable or in anything
+// else is waited for further (up to hardLimit, then it is reported as `hang` too: it never returned).
+func (t *thr) await(blockedExpected bool) string {
+	if blockedExpected {
+		select {
+		case e := <-t.ev:
+			return t.take(e)
+		case <-time.After(shortWait):
 			return "blocked"
 		}
-		t.sc.dead = true
-		return "hang"
 	}
+	wait := longWait
+	switch {
+	case t.hung:
+		wait = 0
+	case t.sc.dead:
+		wait = shortWait
+	case atomic.LoadInt32(&hangsSeen) > 0:
+		wait = hangWatchdog
+	}
+	start := time.Now()
+	for {
+		select {
+		case e := <-t.ev:
+			return t.take(e)
+		case <-time.After(wait):
+		}
+		if t.parkedOnLock() {
+			confirm := hangConfirm
+			if t.hung {
+				confirm = time.Millisecond
+			}
+			select {
+			case e := <-t.ev:
+				return t.take(e)
+			case <-time.After(confirm):
+			}
+			if t.parkedOnLock() {
+				break
+			}
+		}
+		if time.Since(start) >= hardLimit {
+			break
+		}
+		wait = time.Second
+		continue
+	}
+	t.hung = true
+	t.sc.dead = true
+	atomic.AddInt32(&hangsSeen, 1)
+	return "hang"
 }
 
 func (sc *scenario) step(t *thr, blockedExpected bool) string {
